@@ -76,6 +76,10 @@ def run(pid, only, tests=False, checks=None):
                     missing = [t for t in missing if t not in ok2]
                 conf["baseline_tests_still_pass"] = not missing
                 conf["tests_broken"] = missing[:5]
+            if not tests:
+                for k_ in ("baseline_tests_still_pass", "tests_broken"):      # keep the outcome of the last run that included the test suite
+                    if k_ in (meta.get("confirmed") or {}):
+                        conf[k_] = meta["confirmed"][k_]
             meta["confirmed"] = conf
             res = {}
             for cp in (checks or [pid]):
